@@ -74,7 +74,15 @@ def err_variant_blocks(body, variant):
 
 
 def ok_return_blocks(body):
-    return [s.bb for s in body.stmts() if s.kind == "assign" and s.lhs.l == 0 and not s.lhs.p and s.rv == "agg" and isinstance(s.agg, dict) and s.agg.get("variant") == "Ok"]
+    """blocks building the Ok(..) that is returned (directly into _0 or into a local later moved into _0)"""
+    tg = {0}
+    ch = True
+    while ch:
+        ch = False
+        for s in body.stmts():
+            if s.kind == "assign" and not s.lhs.p and s.lhs.l in tg and s.rv == "use" and s.ops[0].place is not None and not s.ops[0].place.p and s.ops[0].place.l not in tg:
+                tg.add(s.ops[0].place.l); ch = True
+    return [s.bb for s in body.stmts() if s.kind == "assign" and s.lhs.l in tg and not s.lhs.p and s.rv == "agg" and isinstance(s.agg, dict) and s.agg.get("variant") == "Ok"]
 
 
 def lock_acquisitions(fn):
@@ -82,6 +90,194 @@ def lock_acquisitions(fn):
 
 
 # ------------------------------------------------------------------------------------------------
+V3 = frozenset("NFT")
+
+class ContinuesEval:
+    """Abstract reading of `reply.continues` (Option<bool>) in one body: which of absent / Some(false) / Some(true) each
+    branch edge admits, and which bool a derived value takes for each of the three."""
+    def __init__(self, cx, body, du, cfg, reply_arg=None, depth=0):
+        self.cx, self.body, self.du, self.cfg, self.depth = cx, body, du, cfg, depth
+        self.reply_arg = reply_arg
+        self.sl = Slice(body, du)
+        self.valfn = {}        # id(call terminator) -> {N,F,T -> bool}
+        self.constraints = {}  # (src, dst) -> allowed set
+        self._calls()
+        self._switches()
+
+    def is_reply_local(self, l):
+        if self.reply_arg is not None: return l == self.reply_arg
+        return self.body.ty_is(l, "Reply")
+
+    def is_cont_place(self, pl):
+        return pl is not None and pl.fields()[-1:] == ["continues"] and self.is_reply_local(pl.l) and not any(e.startswith("as ") for e in pl.p)
+
+    def reads_cont(self, op):
+        """operand is (a reference to / a copy of) reply.continues"""
+        if op.place is None: return False
+        if self.is_cont_place(op.place): return True
+        for l in ref_chain(self.du, op.place.l):
+            for k, d in self.du.defs.get(l, []):
+                if k == "stmt" and d.kind == "assign":
+                    for pl in ([d.rplace] if d.rplace is not None else []) + [o.place for o in d.ops if o.place is not None]:
+                        if self.is_cont_place(pl): return True
+        return False
+
+    def reads_reply(self, op):
+        if op.place is None: return None
+        for l in ref_chain(self.du, op.place.l):
+            if self.is_reply_local(l) and (l != op.place.l or not op.place.p or op.place.p == ["*"]): return l
+        return None
+
+    def _calls(self):
+        for t in self.body.calls():
+            if t.callee.indirect or not t.args: continue
+            nm = t.callee.name
+            a0 = t.args[0]
+            if nm in ("is_none", "is_some", "unwrap_or", "unwrap_or_default") and "Option" in t.callee.path and self.reads_cont(a0):
+                if nm == "is_none": g = {"N": True, "F": False, "T": False}
+                elif nm == "is_some": g = {"N": False, "F": True, "T": True}
+                else:
+                    d = False
+                    if nm == "unwrap_or":
+                        d = None
+                        if t.args[1].is_const: d = bool(t.args[1].cint())
+                        else:
+                            vals = {o.cint() for k, o in self.sl.origins(t.args[1]) if k == "const"}
+                            if len(vals) == 1: d = bool(vals.pop())
+                        if d is None: continue
+                    g = {"N": d, "F": False, "T": True}
+                self.valfn[id(t)] = g
+            elif nm in ("eq", "ne") and len(t.args) == 2 and (self.reads_cont(a0) or self.reads_cont(t.args[1])):
+                other = t.args[1] if self.reads_cont(a0) else a0
+                k = self._const_option_bool(other)
+                if k is None: continue
+                g = {v: (v == k) == (nm == "eq") for v in V3}
+                self.valfn[id(t)] = g
+            elif self.depth < 2 and len(t.args) >= 1 and self.reads_reply(a0) is not None:
+                # a predicate of the reply defined in the library: summarise it
+                cal = [b for b in self.cx.mir.bodies("varlink") if b.promoted is None and b.path == t.callee.path]
+                if len(cal) != 1 or "bool" != cal[0].ty(0): continue
+                g = summarise_predicate(self.cx, cal[0], self.depth + 1)
+                if g is not None: self.valfn[id(t)] = g
+
+    def _const_option_bool(self, op):
+        """abstract value (N/F/T) of a constant Option<bool> operand (a promoted `&Some(true)` or a local built as such)"""
+        from vlib.cfg import promoted_consts
+        cands = []
+        def from_stmts(stmts):
+            for st in stmts:
+                if st.kind == "assign" and st.rv == "agg" and isinstance(st.agg, dict) and "Option" in st.agg.get("adt", ""):
+                    var = st.agg.get("variant")
+                    if var == "None": cands.append("N")
+                    elif var == "Some" and st.ops and st.ops[0].is_const and st.ops[0].cint() is not None: cands.append("T" if st.ops[0].cint() else "F")
+                    else: cands.append(None)
+        for k, o in self.sl.origins(op):
+            if k == "const":
+                dbg = str((o.const or {}).get("dbg", "") or (o.const or {}).get("str", "") or "")
+                if "promoted[" in dbg:
+                    idx = int(dbg.split("promoted[")[1].split("]")[0])
+                    for b in self.body.unit.bodies:
+                        if b.path == self.body.path and b.promoted == idx: from_stmts(b.stmts())
+                else: cands.append(None)
+            elif k == "agg": from_stmts([o])
+            else: cands.append(None)
+        return cands[0] if len(cands) == 1 else None
+
+    def value_fn(self, op):
+        """{N,F,T -> bool} of a bool operand, or None"""
+        if op.is_const: 
+            c = bool(op.cint()); return {"N": c, "F": c, "T": c}
+        orig = self.sl.origins(op)
+        calls = [o for k, o in orig if k == "call"]
+        if len(orig) == 1 and len(calls) == 1 and id(calls[0]) in self.valfn: return self.valfn[id(calls[0])]
+        # a copy of the payload itself: (reply.continues as Some).0 (only read where the value is Some)
+        if op.place is not None:
+            for k, o in orig:
+                pl = getattr(o, "place", None) if k == "place" else None
+            srcs = []
+            l = op.place.l
+            for _ in range(6):
+                ds = self.du.defs.get(l, [])
+                if len(ds) != 1 or ds[0][0] != "stmt" or ds[0][1].kind != "assign" or ds[0][1].rv != "use" or ds[0][1].ops[0].place is None: break
+                pl = ds[0][1].ops[0].place
+                if pl.fields()[-2:] == ["continues", "0"] and self.is_reply_local(pl.l) and any(e.startswith("as Some") for e in pl.p): return {"F": False, "T": True}
+                if pl.p: break
+                l = pl.l
+        return None
+
+    def _add(self, src, dst, allowed):
+        k = (src, dst)
+        self.constraints[k] = (self.constraints[k] | allowed) if k in self.constraints else set(allowed)
+
+    def _switches(self):
+        body, du, cfg = self.body, self.du, self.cfg
+        cont_assigns = [s for s in field_assigns(body, "continues", "MethodCall")]
+        for b in body.blocks:
+            if b.cleanup or b.term.kind != "switch": continue
+            t = b.term
+            c = switch_cond(body, du, t)
+            per_label = None
+            if c.kind == "discr" and self.is_cont_place(c.place):
+                per_label = {}
+                listed = set()
+                for v, dst in t.targets:
+                    per_label[(v, dst)] = {"N"} if v == 0 else {"F", "T"} if v == 1 else set()
+                    listed |= per_label[(v, dst)]
+                if t.otherwise is not None: per_label[("otherwise", t.otherwise)] = set(V3) - listed
+            elif t.discr.place is not None and t.discr.place.fields()[-2:] == ["continues", "0"] and self.is_reply_local(t.discr.place.l) and any(e.startswith("as Some") for e in t.discr.place.p):
+                per_label = {}
+                listed = set()
+                for v, dst in t.targets:
+                    per_label[(v, dst)] = {"F"} if v == 0 else {"T"}
+                    listed |= per_label[(v, dst)]
+                if t.otherwise is not None: per_label[("otherwise", t.otherwise)] = {"F", "T"} - listed
+            else:
+                g = None
+                if c.kind == "call" and id(c.term) in self.valfn: g = self.valfn[id(c.term)]
+                elif c.kind == "field" and c.place.fields()[-1:] == ["continues"] and "MethodCall" in body.ty(c.place.l):
+                    doms = [s for s in cont_assigns if cfg.dominates(s.bb, b.idx)]
+                    if len(doms) == 1 and len(cont_assigns) == 1 and doms[0].ops: g = self.value_fn(doms[0].ops[0])
+                if g is not None:
+                    te, fe = bool_edges(t, c)
+                    per_label = {(te[1], te[2]): {v for v in V3 if g.get(v, True)}, (fe[1], fe[2]): {v for v in V3 if not g.get(v, False)}}
+            if per_label:
+                for (lab, dst), allowed in per_label.items(): self._add(b.idx, dst, allowed)
+
+    def feasible(self, path):
+        S = set(V3)
+        for e in zip(path, path[1:]):
+            if e in self.constraints: S &= self.constraints[e]
+        return S
+
+
+def summarise_predicate(cx, body, depth):
+    """{N,F,T -> bool} computed by a bool function of (&Reply): per abstract value the constant it returns, or None"""
+    from vlib.cfg import enumerate_paths
+    cfg = Cfg(body); du = DefUse(body)
+    ev = ContinuesEval(cx, body, du, cfg, reply_arg=None, depth=depth)
+    # the reply is argument 1 (by reference)
+    ev.reply_arg = 1; ev.valfn = {}; ev.constraints = {}; ev._calls(); ev._switches()
+    rets = [s for s in body.stmts() if s.kind == "assign" and s.lhs.l == 0 and not s.lhs.p]
+    calls0 = [t for t in body.calls() if t.dest is not None and t.dest.l == 0 and not t.dest.p]
+    paths = enumerate_paths(cfg, 0, lambda blk: blk.term.kind == "return", du=du)
+    g = {}
+    for p in paths:
+        if body.blocks[p[-1]].term.kind != "return": continue
+        S = ev.feasible(p)
+        if not S: continue
+        vf = None
+        for bi in p:
+            for st in rets:
+                if st.bb == bi and st.ops: vf = ev.value_fn(st.ops[0])
+            for t in calls0:
+                if t.bb == bi: vf = ev.valfn.get(id(t))
+        if vf is None: return None
+        for v in S:
+            if v in g and g[v] != vf[v]: return None
+            g[v] = vf[v]
+    return g if set(g) == set(V3) else None
+
+
 def check_recv_protocol(cx, rule, prefix):
     """iterator/slot protocol of recv(): used as C05.R2 and C07.R3"""
     f = Fn(cx, MC + "recv")
@@ -95,84 +291,47 @@ def check_recv_protocol(cx, rule, prefix):
     from vlib.cfg import enumerate_paths
     ca = field_assigns(body, "continues", "MethodCall")
     upd = {s.bb for s in ca}
-    # the decision on reply.continues: Some(true) edges ("more") versus all others ("final")
-    more_edges = set(); final_edges = set()
-    for b in body.blocks:
-        if b.cleanup or b.term.kind != "switch": continue
-        c = switch_cond(body, du, b.term)
-        if c.kind == "discr" and c.place.fields()[-1:] == ["continues"] and body.ty_is(c.place.l, "Reply"):
-            some = variant_edge(b.term, 1)
-            for lab, dst in cfg.succ[b.idx]:
-                if (b.idx, lab, dst) != some: final_edges.add((b.idx, dst))
-            # the payload test under Some(..); without one the Some edge decides nothing (Some(false) is a final reply too)
-            for b2 in sorted(cfg.reach(some[2])):
-                t2 = body.blocks[b2].term
-                if t2.kind == "switch" and t2.discr.place is not None and "continues" in t2.discr.place.fields() and any(e.startswith("as Some") for e in t2.discr.place.p):
-                    for lab, dst in cfg.succ[t2.bb]:
-                        (final_edges if lab == 0 else more_edges).add((t2.bb, dst))
-                    break
-    # other spellings of the same decision: `reply.continues.unwrap_or(false)`, `reply.continues == Some(true)`,
-    # or a test of self.continues after it was assigned from the reply
-    def reads_reply_continues(term):
-        for a in term.args:
-            if a.place is None: continue
-            for l in ref_chain(du, a.place.l):
-                for k, d in du.defs.get(l, []):
-                    if k == "stmt" and d.kind == "assign":
-                        for pl in ([d.rplace] if d.rplace is not None else []) + [o.place for o in d.ops if o.place is not None]:
-                            if pl.fields()[-1:] == ["continues"] and body.ty_is(pl.l, "Reply"): return True
-            if a.place.fields()[-1:] == ["continues"] and body.ty_is(a.place.l, "Reply"): return True
-        return False
-    for b in body.blocks:
-        if b.cleanup or b.term.kind != "switch": continue
-        c = switch_cond(body, du, b.term)
-        te = fe = None
-        if c.kind == "call" and c.term.callee.name in ("unwrap_or", "eq", "ne", "unwrap_or_default", "is_some_and", "contains") and reads_reply_continues(c.term):
-            te, fe = bool_edges(b.term, c)
-            if c.term.callee.name == "ne": te, fe = fe, te
-        elif c.kind == "field" and c.place.fields()[-1:] == ["continues"] and "MethodCall" in body.ty(c.place.l) and any(cfg.dominates(s.bb, b.idx) for s in ca):
-            te, fe = bool_edges(b.term, c)
-        if te is not None:
-            more_edges.add((te[0], te[2])); final_edges.add((fe[0], fe[2]))
-    if not more_edges and not final_edges: raise AnchorMissing("recv: no decision on reply.continues at all")
+    # three-valued abstract reading of reply.continues along every path: N (absent), F (Some(false)), T (Some(true))
+    ev = ContinuesEval(cx, body, du, cfg)
+    if not ev.constraints and not ev.valfn: raise AnchorMissing("recv: no decision on reply.continues at all")
     hb_r = field_assigns(body, "reader", "Connection"); hb_w = field_assigns(body, "writer", "Connection")
     locks = lock_acquisitions(f)
     limit = []
     paths = enumerate_paths(cfg, ok_edge[2], lambda blk: blk.term.kind == "return", du=du, on_limit=lambda: limit.append(1))
     if limit: cx.bad(rule, prefix + ":recv:path-limit", site, "recv() has too many paths to enumerate")
-    no_update = []; bad_true = []; bad_hand = []; undecided = []; nmore = nfinal = 0
+    NAMES = {"N": "absent", "F": "Some(false)", "T": "Some(true)"}
+    no_update = []; bad_true = []; bad_hand = []; nmore = nfinal = 0
     for p in paths:
         if body.blocks[p[-1]].term.kind != "return": continue
-        edges = set(zip(p, p[1:]))
-        is_more = bool(edges & more_edges); is_final = bool(edges & final_edges)
-        if is_more and is_final: continue         # infeasible combination of two tests of the same value
-        if not is_more and not is_final:
-            undecided.append(p); continue
-        nmore += is_more; nfinal += is_final
-        sets = [s for s in ca if s.bb in p]
+        S = ev.feasible(p)
+        if not S: continue                         # contradictory tests of the same value: not an execution
+        sets = [st for st in ca if st.bb in p]
+        hr = any(st.bb in p for st in hb_r); hw = any(st.bb in p for st in hb_w)
+        if S <= {"T"}: nmore += 1
+        elif S <= {"N", "F"}: nfinal += 1
+        for v in sorted(S):
+            final = v != "T"
+            if final and not (hr and hw): bad_hand.append(("a final reply (continues %s) returns without handing the stream back" % NAMES[v], p))
+            if not final and (hr or hw): bad_hand.append(("more replies are expected (continues Some(true)) but the stream is handed back", p))
         if not sets: no_update.append(p); continue
         last = sets[-1]
-        v = last.ops[0].cint() if last.ops and last.ops[0].is_const else None
-        if v is not None and bool(v) != is_more: bad_true.append(p)
-        if v is None:
-            # computed value: must derive from the reply's continues member
-            reads = False
-            for k, o in f.sl.origins(last.ops[0]):
-                if k in ("bin", "other", "call"): reads = True
-            if not reads: bad_true.append(p)
-        hr = any(s.bb in p for s in hb_r); hw = any(s.bb in p for s in hb_w)
-        if is_final and not (hr and hw): bad_hand.append(("final reply but the stream is not handed back", p))
-        if is_more and (hr or hw): bad_hand.append(("more replies expected but the stream is handed back", p))
+        if last.ops and last.ops[0].is_const:
+            c = bool(last.ops[0].cint())
+            if any((v == "T") != c for v in S): bad_true.append((p, "set to %s although reply.continues may be %s" % (c, "/".join(NAMES[v] for v in sorted(S) if (v == "T") != c))))
+        else:
+            g = ev.value_fn(last.ops[0]) if last.ops else None
+            if g is None: bad_true.append((p, "set to a value not derived from reply.continues"))
+            elif any(g.get(v) != (v == "T") for v in S): bad_true.append((p, "computed value is %s for %s" % (g, "/".join(NAMES[v] for v in sorted(S) if g.get(v) != (v == "T")))))
     cx.check(not no_update and nmore and nfinal, rule, prefix + ":recv:continues-updated-on-every-exit", site,
              ("%d path(s) from a parsed reply to a return never update self.continues (e.g. the error return, blocks %s): the iterator keeps polling (or stops) on stale state" % (len(no_update), no_update[0][:18]))
-             if no_update else "recv() has %d return path(s) deciding 'more replies follow' and %d deciding 'final reply' on the value of reply.continues: both outcomes must be distinguished (Some(false) and None are final, only Some(true) continues)" % (nmore, nfinal),
-             note_ok="self.continues is set on all %d paths from the parse to a return" % (nmore + nfinal))
+             if no_update else "recv() has %d return path(s) that are taken only for Some(true) and %d taken only for a final reply: both outcomes must be distinguished (Some(false) and absent are final, only Some(true) continues)" % (nmore, nfinal),
+             note_ok="self.continues is set on all paths from the parse to a return (%d for Some(true), %d for a final reply)" % (nmore, nfinal))
     cx.check(not bad_true, rule, prefix + ":recv:continues-true-iff-reply-says-so", site,
-             "%d path(s) set self.continues to a value that disagrees with reply.continues == Some(true)" % len(bad_true), note_ok="true exactly for Some(true)")
-    why = [w for w, _ in bad_hand[:2]]
-    if undecided: why.append("%d path(s) return after a parsed reply without ever consulting reply.continues (blocks %s): on a final reply the stream is not handed back" % (len(undecided), undecided[0][:18]))
+             "%d path(s) leave self.continues disagreeing with reply.continues == Some(true): %s (blocks %s)" % (len(bad_true), bad_true[0][1] if bad_true else "", bad_true[0][0][:18] if bad_true else ""), note_ok="true exactly for Some(true)")
+    why = sorted({w for w, _ in bad_hand})[:3]
+    if bad_hand: why.append("e.g. blocks %s" % bad_hand[0][1][:18])
     if len(locks) != 1: why.append("%d lock acquisitions (expected one write lock covering both slots)" % len(locks))
-    elif not all(cfg.dominates(locks[0].bb, s.bb) for s in hb_r + hb_w): why.append("hand-back outside the connection lock")
+    elif not all(cfg.dominates(locks[0].bb, st.bb) for st in hb_r + hb_w): why.append("hand-back outside the connection lock")
     tr = takes_of(f, "reader", "MethodCall"); tw = takes_of(f, "writer", "MethodCall")
     if not tr or not tw: why.append("hand-back does not move the call object's own reader/writer")
     cx.check(not why, rule, prefix + ":recv:slots-returned-on-final-reply", site, "; ".join(why) + " — the connection stays busy (or is shared) after the call",
